@@ -17,7 +17,7 @@ RULE = ("valid tableaux of every rank (all N=1, stride over the 34560 N=2 tablea
 ASSUMPTIONS = ["observable lists are commuting and Hermitian", "post-states are compared as density matrices (dense, N<=5) "
                "and as canonical signed stabilizer groups (any N), never by choice of generators or destabilizers",
                "fairness: exact binomial tail, alpha=1e-9, on the aggregated random-class outcomes"]
-REQUIRED_SUBS = ["det.outcome", "log2prob", "post.state", "post.rank", "repeat", "rand.arms", "schedule.*", "post.dense"]
+REQUIRED_SUBS = ["det.outcome", "log2prob", "post.state", "post.rank", "repeat", "rand.arms", "schedule.*", "post.dense", "rand.positions"]
 REQUIRED_CALLS = ["StabilizerState.measure", "class.det", "class.anti", "class.logical", "class.anti_standby_first"]
 
 
@@ -26,8 +26,10 @@ def shards(tier):
     out = [
         {"name": "sched.np.interp", "mode": "interp", "backend": "np", "fn": "sched", "n": 150 if q else 4000},
         {"name": "rand.np.jit", "mode": "jit", "backend": "np", "fn": "rand", "n": 1500 if q else 80000},
+        {"name": "forms.np.jit", "mode": "jit", "backend": "np", "fn": "rand", "n": 500 if q else 20000, "forms": 1},
         {"name": "rand.np.interp", "mode": "interp", "backend": "np", "fn": "rand", "n": 250 if q else 6000},
         {"name": "walk.np.jit", "mode": "jit", "backend": "np", "fn": "walk", "n": 60 if q else 3000},
+        {"name": "big.np.jit", "mode": "jit", "backend": "np", "fn": "big", "n": 2 if q else 40},
     ]
     # every valid N<=2 tableau is a shard-disjoint union: shard i takes maps k = i (mod parts)
     for i in range(4):
@@ -335,3 +337,38 @@ def run_walk(shard, rec, B):
                           expected={"r": G.r, "log2prob": -nr}, observed={"r": lr, "log2prob": float(res[1]), "out": out})
                 if not good:
                     break
+
+
+def run_big(shard, rec, B):
+    """wide registers (word / byte thresholds), every rank class, long commuting lists; group oracle only."""
+    rng = gen.rng_for(rec)
+    for t in range(shard["n"]):
+        for N in [16, 31, 32, 33, 63, 64, 65, 70]:
+            r = [0, 1, N // 2, N - 1, N][int(rng.integers(5))]
+            tg, tp, _ = O.random_tableau(rng, N, r=r, nrot=N + 4)
+            L = int(rng.integers(1, 6)) if t % 2 else int(rng.integers(N // 2, N + 3))
+            og, op = gen.commuting_hermitian_list(rng, tg, tp, r, L)
+            measure_case(rec, B, tg, tp, r, og, op, dense=False)
+    # many undetermined observables in ONE call: every position must produce both outcomes over repetitions
+    # (probability that a fair position stays constant over R runs is 2^(1-R); R=40, <=130 positions: < 3e-10 in total)
+    if env.mode() == "jit":
+        for N in ([72, 130] if shard["n"] <= 2 else [64, 72, 100, 130]):
+            R = 40
+            outs = np.zeros((R, N), dtype=np.int64)
+            okall = True
+            for rep in range(R):
+                S = B.stabilizer.zero_state(N)
+                xs = np.zeros((N, 2 * N), dtype=np.int64)
+                xs[np.arange(N), 2 * np.arange(N)] = 1
+                ok, res = rec.attempt("rand.positions", [N, rep], lambda: S.measure(B.PauliList(xs, np.zeros(N, dtype=np.int64))))
+                if not ok:
+                    okall = False
+                    break
+                outs[rep] = np.asarray(res[0]).astype(int)
+                if abs(float(res[1]) + N) > 1e-9:
+                    rec.check("log2prob", False, ["positions", N, rep], True, expected=-N, observed=float(res[1]))
+            if okall:
+                ones = outs.sum(0)
+                const = [int(k) for k in np.nonzero((ones == 0) | (ones == R))[0]]
+                rec.check("rand.positions", not const, ["positions", N, R], True, expected="both outcomes at every position within %d runs" % R,
+                          observed={"constant_positions": const[:10], "n_constant": len(const)})
